@@ -496,7 +496,8 @@ func runC12() {
 	}
 	b.WriteString("(* E: dateTime strings on Note.published: (lexical, accepted, unix seconds, zone offset seconds) *)\n")
 	b.WriteString("Definition obs_datetimes : list (string * bool * Z * Z) := [\n")
-	dtSamples := []string{"2020-02-29T12:00:00Z", "2021-02-29T12:00:00Z", "1970-01-01T00:00:00Z", "2000-12-31T23:59:59+14:00", "0001-01-01T00:00:00Z", "9999-12-31T23:59:59-12:00", "2020-03-01T01:02Z", "2020-03-01T01:02+05:30", "2020-13-01T00:00:00Z", "2020-00-10T00:00:00Z", "2020-04-31T00:00:00Z", "2020-01-01T24:00:00Z", "2020-01-01T00:60:00Z", "2020-01-01T00:00:60Z", "2020-01-01 00:00:00Z", "2020-01-01T00:00:00", "2020-01-01", "1900-02-29T00:00:00Z", "2400-02-29T00:00:00Z", "2100-02-28T23:59:59-00:01"}
+	dtSamples := []string{"2020-02-29T12:00:00Z", "2021-02-29T12:00:00Z", "1970-01-01T00:00:00Z", "2000-12-31T23:59:59+14:00", "0001-01-01T00:00:00Z", "9999-12-31T23:59:59-12:00", "2020-03-01T01:02Z", "2020-03-01T01:02+05:30", "2020-13-01T00:00:00Z", "2020-00-10T00:00:00Z", "2020-04-31T00:00:00Z", "2020-01-01T24:00:00Z", "2020-01-01T00:60:00Z", "2020-01-01T00:00:60Z", "2020-01-01 00:00:00Z", "2020-01-01T00:00:00", "2020-01-01", "1900-02-29T00:00:00Z", "2400-02-29T00:00:00Z", "2100-02-28T23:59:59-00:01",
+		"0000-01-01T00:00:00Z", "0000-01-15T00:00:00Z", "0000-02-29T12:00:00Z", "0000-03-01T00:00:00Z", "0000-12-31T23:59:59+01:00"}
 	for i := 0; i < nlit; i++ {
 		y, mo, d := 1+r.intn(9999), 1+r.intn(12), 1+r.intn(31)
 		if r.chance(1, 8) {
@@ -536,7 +537,8 @@ func runC12() {
 	b.WriteString("\n].\n")
 	b.WriteString("(* E: duration strings on Note.duration: (lexical, 0 = accepted / 1 = rejected / 2 = panic, nanoseconds) *)\n")
 	b.WriteString("Definition obs_durations : list (string * nat * Z) := [\n")
-	durSamples := []string{"PT5S", "P1Y2M3DT4H5M6S", "P1Y", "P40D", "-P1D", "P", "PT", "PY", "P1YT", "PTS", "P3M", "PT3M", "P1Y1Y", "Pxyz", "P1.5Y", "P9223372036854775807S", "PT9223372036854775807S", "PT9223372036S", "PT9223372037S", "P292Y", "P293Y", "P106751D", "P106752D", "-P292Y", "P0Y0M0DT0H0M0S", "P00001Y", "p1Y", "1Y", "P1y", " P1Y", "P1Y ", "", "-", "--P1Y", "-P", "P1DT", "P1H", "PT1D", "P1M1Y"}
+	durSamples := []string{"PT5S", "P1Y2M3DT4H5M6S", "P1Y", "P40D", "-P1D", "P", "PT", "PY", "P1YT", "PTS", "P3M", "PT3M", "P1Y1Y", "Pxyz", "P1.5Y", "P9223372036854775807S", "PT9223372036854775807S", "PT9223372036S", "PT9223372037S", "P292Y", "P293Y", "P106751D", "P106752D", "-P292Y", "P0Y0M0DT0H0M0S", "P00001Y", "p1Y", "1Y", "P1y", " P1Y", "P1Y ", "", "-", "--P1Y", "-P", "P1DT", "P1H", "PT1D", "P1M1Y",
+		"PT18446744073S", "P400Y", "P1000000Y", "-P400Y", "P292Y200D", "PT9223372036S", "P99999999999999999999Y", "P12814M", "PT153722867M", "PT2562048H"}
 	for i := 0; i < nlit; i++ {
 		var sb strings.Builder
 		if r.chance(1, 6) {
